@@ -1,0 +1,201 @@
+//go:build verif
+
+package gcsemu
+
+// Contracts for the HTTP handlers of gcsemu (checked by /verif/govc). Comments only.
+
+// Structural invariants of *GcsEmu: NewGcsEmu is the only constructor and always installs a store
+// (NewMemStore() when Options.Store is nil), a lock map and a log function (a no-op when Options.Log is nil);
+// no code assigns these fields afterwards (a store to them becomes a typeinv obligation).
+//@ typeinv nonnil GcsEmu.store
+//@ typeinv nonnil GcsEmu.locks
+//@ typeinv nonnil GcsEmu.log
+// (typeinv purefunc GcsEmu.log is declared by the lead in zz_verif_contracts.go.)
+
+//@ func lockName
+//@   property C07 C15
+//@   pure
+//@   ensures result == bucket + "/" + filename
+
+//@ func (g *GcsEmu) InitBucket
+//@   property C07 C20
+//@   modifies *
+
+// ---------------------------------------------------------------------------------------------
+// util.go: response envelopes
+// ---------------------------------------------------------------------------------------------
+
+// jsonBodies: number of JSON documents (success envelope via jsonRespond, error envelope via gapiError) written to
+// a response writer by the current thread; bumped by the trusted spec of (*json.Encoder).Encode.
+//@ ghostvar jsonBodies int
+
+// Both envelopes only talk to the response writer and the (assumed pure) injected logger: no emulator state changes.
+//@ func (g *GcsEmu) jsonRespond
+//@   property C20
+//@   requires w != nil
+//@   modifies ghost(jsonBodies)
+//@   ensures jsonBodies == old(jsonBodies) + 1
+
+//@ func (g *GcsEmu) gapiError
+//@   property C20
+//@   requires w != nil
+//@   modifies ghost(jsonBodies)
+//@   ensures jsonBodies == old(jsonBodies) + 1
+
+// ---------------------------------------------------------------------------------------------
+// gcsemu.go: handlers
+// ---------------------------------------------------------------------------------------------
+
+//@ func (g *GcsEmu) handleGcsNewBucket
+//@   property C07 C20
+//@   requires w != nil && r != nil && r.Body != nil
+//@   modifies *, ghost(jsonBodies)
+//@   ensures jsonBodies == old(jsonBodies) + 1
+
+// condsHold(o, c): the object o exists and satisfies the conditions c (the success case of validateConds for o != nil).
+//@ spec condsHold(o *storage.Object, c cloudstorage.Conditions) bool = o != nil && !c.DoesNotExist && (c.GenerationMatch == 0 || o.Generation == c.GenerationMatch) && (c.GenerationNotMatch == 0 || o.Generation != c.GenerationNotMatch) && (c.MetagenerationMatch == 0 || o.Metageneration == c.MetagenerationMatch) && (c.MetagenerationNotMatch == 0 || o.Metageneration != c.MetagenerationNotMatch)
+//@ spec is400(e error) bool = typeis(e, *httpError) && as(e, *httpError) != nil && as(e, *httpError).code == 400
+
+// finishCompose (C15): > 32 sources is a 400, a nil destination resource is a 400 (not a panic); every source is
+// fetched and validated against its own conditions (loop 1 invariant over metas) before the destination is
+// validated and the single Store.Add happens; an error never comes with an object.
+//@ func (g *GcsEmu) finishCompose
+//@   property C15 C20 C07
+//@   modifies fields(meta)
+//@   ensures len(srcs) > 32 ==> result0 == nil && is400(result1)
+//@   ensures len(srcs) <= 32 && meta == nil ==> result0 == nil && is400(result1)
+//@   ensures result1 != nil ==> result0 == nil
+//@   ensures result1 == nil ==> len(srcs) <= 32 && meta != nil
+//@   loop 1 invariant len(metas) == len(srcs)
+//@   loop 1 invariant forall k :: 0 <= k <= idx1 ==> metas[k] != nil && fresh(metas[k])
+//@   loop 1 invariant forall k :: 0 <= k <= idx1 ==> condsHold(metas[k], srcs[k].conds)
+//@   loop 1 invariant frameOld(fields(meta))
+//@   loop 1 invariant frameOld(elems(srcs))
+//@   loop 2 invariant len(metas) == len(srcs)
+//@   loop 2 invariant forall k :: 0 <= k < len(metas) ==> metas[k] != nil && fresh(metas[k])
+//@   loop 2 invariant forall k :: 0 <= k < len(metas) ==> condsHold(metas[k], srcs[k].conds)
+
+// handleGcsCompose (C15/C20): entry-point preconditions only (non-nil writer, request, body); the decoded
+// ComposeRequest is arbitrary (see the Decode spec): no typeinv for its JSON-decoded slices.
+//@ func (g *GcsEmu) handleGcsCompose
+//@   property C15 C20 C07
+//@   requires w != nil && r != nil && r.Body != nil
+//@   modifies *, ghost(jsonBodies)
+//@   ensures jsonBodies == old(jsonBodies) + 1
+//@   loop 1 invariant len(srcs) == len(req.SourceObjects)
+
+// handleGcsCopy (C15/C20/C07): the path "<f1>/rewriteTo/b/<b2>/o/<f2>" is split with every index in bounds for
+// every input; the callback invariant is an assertion at the locks.Run call: the key that is locked,
+// lockName(b2, f2), and the arguments of Store.Copy are a decomposition of the request path.
+//@ func (g *GcsEmu) handleGcsCopy
+//@   property C15 C20 C07
+//@   requires w != nil
+//@   modifies *, ghost(jsonBodies)
+//@   ensures jsonBodies == old(jsonBodies) + 1
+//@   callback $1 invariant f1 + "/rewriteTo/b/" + (b2 + "/o/" + f2) == objectPaths
+
+// handleGcsMetadataRequest / handleGcsMediaRequest (C02/C20): a missing object (nil from the store) takes the 404
+// path and is never dereferenced; only the response writer is touched.
+//@ func (g *GcsEmu) handleGcsMetadataRequest
+//@   property C02 C20
+//@   requires w != nil
+//@   modifies ghost(jsonBodies)
+//@   ensures jsonBodies == old(jsonBodies) + 1
+
+// Media: the success path writes the raw content (no JSON), every error path exactly one JSON error envelope.
+//@ func (g *GcsEmu) handleGcsMediaRequest
+//@   property C02 C20
+//@   requires w != nil
+//@   modifies ghost(jsonBodies)
+//@   ensures jsonBodies <= old(jsonBodies) + 1
+
+// ---------------------------------------------------------------------------------------------
+// util.go / parse.go helpers
+// ---------------------------------------------------------------------------------------------
+
+// mustJson panics when marshalling fails: only ever called with a *storage.Object (filestore.go), which always
+// marshals (see the json.MarshalIndent assumption).
+//@ func mustJson
+//@   property C20
+//@   requires val == nil || typeis(val, *storage.Object)
+
+//@ func removeDoubleQuotes
+//@   property C20
+//@   pure
+
+// forwardedHostRx has one capturing group, so every submatch slice has length 2 and m[1] is in bounds.
+//@ func parseForwardedHeader
+//@   property C20
+//@   loop 1 invariant cap(f.Host) == 0 || fresh(f.Host)
+//@   loop 1 invariant frameOld(heap("T:string"))
+
+//@ func requestHost
+//@   property C20
+//@   requires req != nil
+
+//@ func parseGcsUrl
+//@   property C02 C20
+//@   requires re != nil && u != nil
+//@   ensures result1 <==> result0 != nil
+//@   ensures result0 != nil ==> fresh(result0)
+
+//@ func ParseGcsUrl
+//@   property C02 C20
+//@   requires u != nil
+//@   ensures result1 <==> result0 != nil
+//@   ensures result0 != nil ==> fresh(result0)
+
+// ---------------------------------------------------------------------------------------------
+// Handler: the HTTP entry point (C20). Entry-point preconditions: what net/http guarantees for a served request.
+// Every branch of the dispatch ends in exactly one handler call or one gapiError; in terms of the response ghost:
+// at most one JSON envelope is produced per request (the branches that answer without JSON - media download,
+// delete, resumable-upload progress - produce none).
+// ---------------------------------------------------------------------------------------------
+
+//@ func (g *GcsEmu) Handler
+//@   property C20 C02 C15 C07
+//@   requires w != nil && r != nil && r.URL != nil && r.Header != nil && r.Body != nil
+//@   modifies *, ghost(jsonBodies)
+//@   ensures jsonBodies <= old(jsonBodies) + 1
+
+// ---------------------------------------------------------------------------------------------
+// batch.go: BatchHandler (C20). contentId[0] is only indexed when contentId != ""; reqs and contentIds grow in
+// lock step, every parsed request is non-nil and has a non-nil URL, header and body (http.ReadRequest).
+// ---------------------------------------------------------------------------------------------
+
+//@ func (g *GcsEmu) BatchHandler
+//@   property C20
+//@   requires w != nil && r != nil && r.URL != nil && r.Header != nil && r.Body != nil
+//@   modifies *, ghost(jsonBodies)
+//@   loop 1 invariant len(reqs) == len(contentIds)
+//@   loop 1 invariant forall k :: 0 <= k < len(reqs) ==> reqs[k] != nil && reqs[k].URL != nil && reqs[k].Header != nil && reqs[k].Body != nil
+//@   loop 2 invariant len(reqs) == len(contentIds)
+//@   loop 2 invariant forall k :: 0 <= k < len(reqs) ==> reqs[k] != nil && reqs[k].URL != nil && reqs[k].Header != nil && reqs[k].Body != nil
+
+// ---------------------------------------------------------------------------------------------
+// http_wrappers.go: the wrappers only build closures. NOTE: govc does not verify the bodies of returned
+// (escaping) closures as units, so DrainRequestHandler$1 / GzipRequestHandler$1 produce no obligations (see report).
+// ---------------------------------------------------------------------------------------------
+
+//@ func DrainRequestHandler
+//@   property C20
+//@   requires h != nil
+//@   ensures result != nil
+
+//@ func GzipRequestHandler
+//@   property C20 C02
+//@   requires h != nil
+//@   ensures result != nil
+
+//@ func (g *GcsEmu) Register
+//@   property C20
+//@   requires mux != nil
+//@   modifies *
+
+// NewGcsEmu establishes the structural invariants declared at the top of this file (the stores to the three
+// fields are typeinv obligations of this unit).
+//@ func NewGcsEmu
+//@   property C20 C07
+//@   modifies *
+//@   ensures result != nil && fresh(result)
+//@   ensures result.store != nil && result.locks != nil && result.log != nil
